@@ -1,8 +1,9 @@
 ------------------------------ MODULE Registry ------------------------------
 (***************************************************************************)
 (* C20: the namespace provider and the client-version registry are maps    *)
-(* behind a readers-writer lock.  Processes issue Add(key, value) and      *)
-(* Lookup(key) calls; a call is several steps: invoke, acquire the lock    *)
+(* behind a readers-writer lock.  Processes issue Add(key, value),         *)
+(* Register(key, value) (refused when the key is taken) and Lookup(key)    *)
+(* calls; a call is several steps: invoke, acquire the lock    *)
 (* (shared for Lookup, exclusive for Add), access the map, release, return.*)
 (* The specification keeps, beside the implementation's map, the           *)
 (* SEQUENTIAL map that the calls are supposed to be equivalent to: it is   *)
@@ -24,6 +25,7 @@ VARIABLES map,        \* the implementation's map
 vars == <<map, readers, writer, pc, call, ncalls, spec>>
 
 NoVal == 0
+IsWrite(o) == o \in {"add", "register"}
 NoCall == [op |-> "none", key |-> 0, val |-> 0, res |-> 0]
 
 Init == /\ map = [k \in Keys |-> NoVal] /\ spec = [k \in Keys |-> NoVal]
@@ -39,7 +41,7 @@ Invoke(p, op, k, v) ==
 
 Acquire(p) ==
     /\ pc[p] = "invoked"
-    /\ IF call[p].op = "add"
+    /\ IF IsWrite(call[p].op)
        THEN writer = 0 /\ readers = {} /\ writer' = p /\ UNCHANGED readers
        ELSE writer = 0 /\ readers' = readers \cup {p} /\ UNCHANGED writer
     /\ pc' = [pc EXCEPT ![p] = "locked"]
@@ -48,18 +50,27 @@ Acquire(p) ==
 \* the linearization point
 Access(p) ==
     /\ pc[p] = "locked"
-    /\ IF call[p].op = "add"
-       THEN /\ map' = [map EXCEPT ![call[p].key] = call[p].val]
-            /\ spec' = [spec EXCEPT ![call[p].key] = call[p].val]
-            /\ UNCHANGED call
-       ELSE /\ call' = [call EXCEPT ![p].res = map[call[p].key]]
-            /\ UNCHANGED <<map, spec>>
+    /\ CASE call[p].op = "add" ->
+               /\ map' = [map EXCEPT ![call[p].key] = call[p].val]
+               /\ spec' = [spec EXCEPT ![call[p].key] = call[p].val]
+               /\ UNCHANGED call
+         \* test and set under the exclusive lock: the result is 1 (accepted) or 0 (refused, nothing changes)
+         [] call[p].op = "register" ->
+               IF map[call[p].key] = NoVal
+               THEN /\ map' = [map EXCEPT ![call[p].key] = call[p].val]
+                    /\ spec' = [spec EXCEPT ![call[p].key] = call[p].val]
+                    /\ call' = [call EXCEPT ![p].res = 1]
+               ELSE /\ call' = [call EXCEPT ![p].res = 0]
+                    /\ UNCHANGED <<map, spec>>
+         [] OTHER ->
+               /\ call' = [call EXCEPT ![p].res = map[call[p].key]]
+               /\ UNCHANGED <<map, spec>>
     /\ pc' = [pc EXCEPT ![p] = "accessed"]
     /\ UNCHANGED <<readers, writer, ncalls>>
 
 Release(p) ==
     /\ pc[p] = "accessed"
-    /\ IF call[p].op = "add" THEN writer' = 0 /\ UNCHANGED readers ELSE readers' = readers \ {p} /\ UNCHANGED writer
+    /\ IF IsWrite(call[p].op) THEN writer' = 0 /\ UNCHANGED readers ELSE readers' = readers \ {p} /\ UNCHANGED writer
     /\ pc' = [pc EXCEPT ![p] = "released"]
     /\ UNCHANGED <<map, call, ncalls, spec>>
 
@@ -70,7 +81,7 @@ Return(p) ==
     /\ UNCHANGED <<map, readers, writer, ncalls, spec>>
 
 Next == \E p \in Procs :
-          \/ \E k \in Keys, v \in Vals : Invoke(p, "add", k, v)
+          \/ \E k \in Keys, v \in Vals : Invoke(p, "add", k, v) \/ Invoke(p, "register", k, v)
           \/ \E k \in Keys : Invoke(p, "lookup", k, 0)
           \/ Acquire(p) \/ Access(p) \/ Release(p) \/ Return(p)
 
@@ -80,7 +91,7 @@ Spec == Init /\ [][Next]_vars /\ \A p \in Procs : WF_vars(Acquire(p) \/ Access(p
 \* a write step is never concurrent with another access
 MutualExclusion ==
     /\ writer # 0 => readers = {}
-    /\ \A p, q \in Procs : (pc[p] \in {"locked", "accessed"} /\ call[p].op = "add" /\ pc[q] \in {"locked", "accessed"}) => p = q
+    /\ \A p, q \in Procs : (pc[p] \in {"locked", "accessed"} /\ IsWrite(call[p].op) /\ pc[q] \in {"locked", "accessed"}) => p = q
 
 \* the implementation's map is the sequential map whenever nobody is writing
 MapIsSpec == writer = 0 => map = spec
@@ -90,6 +101,10 @@ LookupSeesSpec ==
     \A p \in Procs : (pc[p] \in {"accessed", "released"} /\ call[p].op = "lookup") =>
         \* an add cannot slip in between the access and the release of a reader
         (pc[p] = "accessed" => call[p].res = spec[call[p].key])
+
+\* a registration is accepted only for a key that was free, and then holds the key
+RegisterTestAndSet ==
+    \A p \in Procs : (pc[p] = "accessed" /\ call[p].op = "register" /\ call[p].res = 1) => spec[call[p].key] = call[p].val
 
 \* every started call returns (no deadlock among readers and writers)
 CallsReturn == \A p \in Procs : pc[p] # "idle" ~> pc[p] = "idle"
